@@ -355,6 +355,26 @@ func c36CheckQuery(t *rapid.T, tr *ip.CIDRTrie, m *c36Model, q netip.Prefix, st 
 		}
 	}
 
+	// VisitCoveredBy (if this tree has it): exactly the stored prefixes inside q, each once, with
+	// their values.
+	if v, ok := any(tr).(interface {
+		VisitCoveredBy(ip.CIDR, func(ip.CIDR, any) bool)
+	}); ok {
+		var visited []netip.Prefix
+		v.VisitCoveredBy(qc, func(c ip.CIDR, d any) bool {
+			gp := m.prefix(t, c)
+			if want, stored := m.m[gp]; !stored || d != any(want) {
+				t.Fatalf("VisitCoveredBy(%v) yielded (%v,%v) which is not a stored entry; stored: %s", q, c, d, m.dump())
+			}
+			visited = append(visited, gp)
+			return true
+		})
+		if c36PrefixSetString(visited) != c36PrefixSetString(inside) || len(visited) != len(inside) {
+			t.Fatalf("VisitCoveredBy(%v) visited [%s] want the stored prefixes inside it [%s]; stored: %s",
+				q, c36PrefixSetString(visited), c36PrefixSetString(inside), m.dump())
+		}
+	}
+
 	// ClosestDescendants: stored strict descendants of q with no stored prefix strictly between.
 	branch := false
 	if !isStored {
